@@ -52,6 +52,11 @@ pub fn run<T: Elt>(kind: &str, a: &mut Args, out: &mut Out) {
             check_forms(&add, &(p.clone() + q.clone()), "+"); check_forms(&sub, &(p.clone() - q.clone()), "-");
             check_forms(&mul, &(p.clone() * q.clone()), "*"); check_forms(&neg, &(-p.clone()), "neg");
             check_forms(&sc, &(p.clone() * s), "*s");
+            // both operands the SAME object: a shortcut keyed on pointer equality must agree with the general operator
+            // (seeded mutation C11-8: a squaring fast path for `&p * &p` that dropped the cross terms)
+            check_forms(&(&p * &p), &(&p * &p.clone()), "p * p, both operands the same object");
+            check_forms(&(&p + &p), &(&p + &p.clone()), "p + p, both operands the same object");
+            check_forms(&(&p - &p), &(&p - &p.clone()), "p - p, both operands the same object");
             let rs = [add, sub, mul, neg, sc, add2, sub2, mul2];
             for r in rs.iter() { dump(r, out); deg(r, out); }
             guarded(out, |o| o.s(&p.eval(x)));
